@@ -20,6 +20,7 @@ static struct {
   int nreal;
   char *mounted[256];
   int nmounted;
+  char *mounts_raw; /* the text of the mount table, verbatim (when given) */
   int fan, minfo, mount_ok, markfail, load;
   int stat_ok;
   unsigned stat_uid, stat_gid;
@@ -282,8 +283,20 @@ static void run_case(void) {
     char mounts_file[4096];
     snprintf(mounts_file, sizeof mounts_file, "%s/mounts", g_root);
     FILE *f = fopen(mounts_file, "w");
-    for (int i = 0; i < S.nmounted; ++i) {
-      fprintf(f, "dev %s type rw 0 0\n", S.mounted[i]);
+    if (S.mounts_raw) {
+      fputs(S.mounts_raw, f);
+    }
+    for (int i = 0; i < S.nmounted && !S.mounts_raw; ++i) {
+      /* the way the kernel writes a mount point (fs/proc_namespace.c: mangle with " \t\n\\") */
+      fputs("dev ", f);
+      for (const unsigned char *c = (const unsigned char *)S.mounted[i]; *c; ++c) {
+        if (*c == ' ' || *c == '\t' || *c == '\n' || *c == '\\') {
+          fprintf(f, "\\%03o", *c);
+        } else {
+          fputc(*c, f);
+        }
+      }
+      fputs(" type rw 0 0\n", f);
     }
     fclose(f);
     W.open_from = "/proc/self/mounts";
@@ -359,6 +372,8 @@ int drv_main(void) {
       for (int i = 1; i < n; ++i) {
         S.mounted[S.nmounted++] = unhex(t[i]);
       }
+    } else if (!strcmp(t[0], "m_mounts_raw")) {
+      S.mounts_raw = n > 1 ? unhex(t[1]) : strdup("");
     } else if (!strcmp(t[0], "m_flags")) {
       S.fan = atoi(t[1]);
       S.minfo = atoi(t[2]);
